@@ -131,6 +131,8 @@ def infer(p, atys):
         rt, ps = infer(p[1], atys)
         paths = [(i,) + q for i in range(p[2]) for q in ps]
         return (["arr", p[2] + 1, rt] if op == "iterate" else rt), paths
+    if op == "closure":
+        return infer(p[1], [INT] * len(p[2]) + list(atys))
     if op in ("masked_iterate", "masked_iterate_final"):
         sty, flags = atys
         n = flags[1]
@@ -297,6 +299,8 @@ def ref(p, args, ch, pre=()):
             sites += ss
             acc.append(state)
         return sites, (["a"] + acc if op == "iterate" else state)
+    if op == "closure":
+        return ref(p[1], list(p[2]) + list(args), ch, pre)
     if op in ("masked_iterate", "masked_iterate_final"):
         state, flags = args
         sites, acc = [], [state]
